@@ -687,12 +687,110 @@ let c30_p2o = function
      | _ -> "FAIL malformed result")
   | _ -> "FAIL malformed case"
 
+(* C01 / C02 / C20 *)
+let ll_tables_of_sx = function
+  | L [L prods; L autos; st; k; nterm; nnt] ->
+    let prod = function
+      | L [l; L rev] -> { LLParser.p_lhs = n_of_int (int_of_sx l); p_rev = Stdlib.List.map (fun x -> sym_of_int (int_of_sx x)) rev; p_push = false }
+      | _ -> failwith "ll prod" in
+    let auto = function L [p0; kk; L trs] -> dfa_of_sx (L [p0; kk; L trs]) | _ -> failwith "ll auto" in
+    { LLParser.tb_prods = Stdlib.List.map prod prods; tb_automata = Stdlib.List.map auto autos; tb_start = n_of_int (int_of_sx st);
+      tb_k = nat_of_int (int_of_sx k); tb_nterms = n_of_int (int_of_sx nterm); tb_nnts = n_of_int (int_of_sx nnt) }
+  | _ -> failwith "ll tables"
+
+let ll_events (evs : LLParser.event list) : string list =
+  Stdlib.List.map (function LLParser.OpenRoot -> "o-1" | LLParser.Open a -> Printf.sprintf "o%d" (int_of_n a)
+                           | LLParser.Tok t -> Printf.sprintf "t%d" (int_of_n t) | LLParser.Close -> "c") evs
+
+let real_events (evs : Sexp.t) : string list =
+  Stdlib.List.filter_map (function
+      | L [A "o"; n] -> Some ("o" ^ (match n with A a -> a | _ -> "?"))
+      | L [A "c"] -> Some "c"
+      | L (A "t" :: ty :: _) -> let t = int_of_sx ty in if t >= 5 then Some (Printf.sprintf "t%d" t) else None
+      | _ -> None) (list_of_sx evs)
+
+let c01 = function
+  | [_; _; L [A "panic"]] -> "FAIL key=panic the LL(k) pipeline panicked"
+  | [_; _; L [A why]] -> "OK 0 " ^ why
+  | [g; _; L [A "built"; g2; tb; L runs]] ->
+    let g0 = cfg_of_sx g and g2' = cfg_of_sx g2 and tb' = ll_tables_of_sx tb in
+    if not (LLParser.tables_ok tb') then "FAIL key=tables-not-ok the generated LL tables fail tables_ok (index range / sortedness / la_wf)"
+    else begin
+      let problems = ref [] in
+      let nontrivial = ref 0 in
+      let add k w = problems := (k, w) :: !problems in
+      (* group the runs by input to compare verdicts/actions across option sets (C20) *)
+      let by_input = Hashtbl.create 64 in
+      Stdlib.List.iter (fun r ->
+          match r with
+          | L (toks :: rc :: tr :: dp :: rest) ->
+            let w = ns_of_sx toks in
+            let ws = Sexp.to_string toks in
+            let opts = { LLParser.o_recovery = (int_of_sx rc = 1); o_trim = (int_of_sx tr = 1);
+                         o_max_depth = (match dp with A "none" -> None | d -> Some (n_of_int (int_of_sx d))) } in
+            (match rest with
+             | [A "panic"] -> add "parser-panic" ws
+             | verdict :: more ->
+               let inlang = member g2' w in
+               let inlang0 = member g0 w in
+               if inlang <> inlang0 then add "transformed-grammar-language-differs" ws;
+               let real_ok = (verdict = A "ok") in
+               let depth_err = (verdict = L [A "err"; L [A "depth"]]) in
+               if real_ok && not inlang0 then add "accepts-non-sentence" ws
+               else if (not real_ok) && inlang0 && not depth_err then add "rejects-sentence" ws
+               else begin
+                 let rec go fuel tries =
+                   (match LLParser.ll_run (nat_of_int fuel) tb' opts w with
+                    | LLParser.OutOfFuel when tries > 0 -> go (fuel * 4) (tries - 1)
+                    | r -> r) in
+                 let m = go (4 * Stdlib.List.length w + 64) 4 in
+                 let real_acts = (match more with L acts :: _ -> Stdlib.List.map ints_of_sx acts | _ -> []) in
+                 (match m, verdict with
+                  | LLParser.Accepted (acts, evs), A "ok" ->
+                    let macts = Stdlib.List.map (fun (p, cs) -> [int_of_n p; Stdlib.List.length cs]) acts in
+                    if macts <> real_acts then add "actions-differ-from-model" ws
+                    else begin
+                      let revs = (match more with [_; e] -> real_events e | _ -> []) in
+                      if revs <> ll_events evs then add "tree-differs-from-model" ws
+                      else if Stdlib.List.length w >= 2 then incr nontrivial
+                    end;
+                    if not depth_err then begin
+                      let key = ws in
+                      (match Hashtbl.find_opt by_input key with
+                       | Some (a0 : int list list) -> if a0 <> real_acts then add "actions-depend-on-options" ws
+                       | None -> Hashtbl.replace by_input key real_acts)
+                    end
+                  | LLParser.Rejected (LLParser.RSyntaxErrors, n), L [A "err"; L [A "syntax"; k]] ->
+                    if int_of_nat n <> int_of_sx k then add "error-count-differs-from-model" ws
+                    else if Stdlib.List.length w >= 2 then incr nontrivial
+                  | LLParser.Rejected (LLParser.RUnprocessedInput, _), L [A "err"; L [A "unprocessed"]]
+                  | LLParser.Rejected (LLParser.RRecoveryFailed, _), L [A "err"; L [A "recoveryfailed"]]
+                  | LLParser.Rejected (LLParser.RPredictionError, _), L [A "err"; L [A "prediction"]]
+                  | LLParser.DepthExceeded, L [A "err"; L [A "depth"]] -> if Stdlib.List.length w >= 2 then incr nontrivial
+                  | LLParser.Rejected (LLParser.RLexerError, _), L [A "err"; L [A ("lexer" | "lex-empty")]] -> ()
+                  | LLParser.Rejected (k, _), L [A "err"; e] ->
+                    add ("error-kind-differs-from-model:" ^ (match k with LLParser.RSyntaxErrors -> "syntax" | LLParser.RUnprocessedInput -> "unprocessed"
+                       | LLParser.RRecoveryFailed -> "recoveryfailed" | LLParser.RTooManyErrors -> "toomany" | LLParser.RPredictionError -> "prediction"
+                       | LLParser.RLexerError -> "lexer" | LLParser.RDataError -> "data") ^ "-vs-" ^ Sexp.to_string e) ws
+                  | LLParser.OutOfFuel, _ -> ()
+                  | LLParser.BadInput, _ -> ()
+                  | _, _ -> add "verdict-differs-from-model" ws)
+               end
+             | [] -> add "malformed-run" ws)
+          | _ -> add "malformed-run" "") runs;
+      (match Stdlib.List.rev !problems with
+       | [] -> Printf.sprintf "OK %d ll-ok" (if !nontrivial > 0 then 1 else 0)
+       | (k, w) :: _ -> Printf.sprintf "FAIL key=%s on input %s (%d problem runs)" k w (Stdlib.List.length !problems))
+    end
+  | _ -> "FAIL malformed case"
+
 let dispatch (sx : Sexp.t) : string =
   match sx with
   | L (A "lev" :: args) -> c31 args
   | L (A "eval" :: args) -> c08 args
   | L (A "aug" :: args) -> c12 args
   | L (A "wf" :: args) -> c11 args
+  | L (A "ll" :: args) -> c01 args
   | L (A "p2o" :: args) -> c30_p2o args
   | L (A "mode" :: args) -> c16_mode args
   | L [A "modes"; _; A "rejected"] -> "OK 0 grammar-rejected"
